@@ -45,6 +45,11 @@ CLAIMED = {
         "level": "Decides the grouping relation for every ordered pair of binary operators and the agreement of all spelling tables; the value denoted by each literal spelling (escapes, number parsing) is NOT decided.",
         "note": "Partial: clauses P1-P4.",
     },
+    "C18": {
+        "technique": "must-pass-through on MIR (check_name / declare_runtime_* gates), dominance order of the registration passes, loop-accumulator feedback by origin tracing, panic-site inventory over call-graph-reachable registration code against a reviewed (kind, producer) table",
+        "level": "Decides the structural clauses I1-I5 (validation at every constructor, pass order, duplicate -> error, never a panic on the registration path, path walking); that every item is reachable under every library is not decided.",
+        "note": "Partial: clauses I1-I5.",
+    },
 }
 _PENDING = "check under construction in this session; not yet claimed"
 NOT_APPLICABLE = {p: _PENDING for p in
